@@ -414,6 +414,13 @@ func UtxoValidateInsufficientCollateral(
 	if fee == nil {
 		fee = new(big.Int)
 	}
+	// The collateral balance is what the inputs hold minus what the
+	// collateral return output gives back
+	if collReturn := tx.CollateralReturn(); collReturn != nil {
+		if amount := collReturn.Amount(); amount != nil {
+			totalCollateral.Sub(totalCollateral, amount)
+		}
+	}
 	// balance * 100 >= fee * collateralPercentage, compared exactly
 	required := new(
 		big.Int,
